@@ -588,7 +588,12 @@ where
     let mut validation_errors: Vec<Error> = Vec::new();
 
     loop {
-        match src.peek()? {
+        // (an error met while fetching the first event of a document gets its snippet like any
+        // other error of these entry points)
+        let first = src
+            .peek()
+            .map_err(|e| maybe_with_snippet(e, input, with_snippet, crop_radius))?;
+        match first {
             // Skip documents that are explicit null-like scalars ("", "~", or "null").
             Some(Ev::Scalar {
                 value: s,
@@ -596,7 +601,10 @@ where
                 tag,
                 ..
             }) if is_null_document(s, style, tag) => {
-                let _ = src.next()?; // consume the null scalar document
+                // consume the null scalar document
+                let _ = src
+                    .next()
+                    .map_err(|e| maybe_with_snippet(e, input, with_snippet, crop_radius))?;
                 continue;
             }
             Some(_) => {
@@ -994,7 +1002,12 @@ where
     let mut validation_errors: Vec<Error> = Vec::new();
 
     loop {
-        match src.peek()? {
+        // (an error met while fetching the first event of a document gets its snippet like any
+        // other error of these entry points)
+        let first = src
+            .peek()
+            .map_err(|e| maybe_with_snippet(e, input, with_snippet, crop_radius))?;
+        match first {
             // Skip documents that are explicit null-like scalars ("", "~", or "null").
             Some(Ev::Scalar {
                 value: s,
@@ -1002,7 +1015,10 @@ where
                 tag,
                 ..
             }) if is_null_document(s, style, tag) => {
-                let _ = src.next()?; // consume the null scalar document
+                // consume the null scalar document
+                let _ = src
+                    .next()
+                    .map_err(|e| maybe_with_snippet(e, input, with_snippet, crop_radius))?;
                 continue;
             }
             Some(_) => {
@@ -1419,7 +1435,12 @@ pub fn from_multiple_with_options<T: DeserializeOwned>(
     let mut values = Vec::new();
 
     loop {
-        match src.peek()? {
+        // (an error met while fetching the first event of a document gets its snippet like any
+        // other error of these entry points)
+        let first = src
+            .peek()
+            .map_err(|e| maybe_with_snippet(e, input, with_snippet, crop_radius))?;
+        match first {
             // Skip documents that are explicit null-like scalars ("", "~", or "null").
             Some(Ev::Scalar {
                 value: s,
@@ -1427,7 +1448,10 @@ pub fn from_multiple_with_options<T: DeserializeOwned>(
                 tag,
                 ..
             }) if is_null_document(s, style, tag) => {
-                let _ = src.next()?; // consume the null scalar document
+                // consume the null scalar document
+                let _ = src
+                    .next()
+                    .map_err(|e| maybe_with_snippet(e, input, with_snippet, crop_radius))?;
                 // Do not push anything for this document; move to the next one.
                 continue;
             }
